@@ -30,8 +30,10 @@ def make_pixels(cfg):
     yy, xx = np.meshgrid(np.arange(h), np.arange(w), indexing="ij")
     planes = []
     for b in range(s if ax != "YX" else 1):
-        v = (yy * 131 + xx * 7 + b * 1009 + 1)
-        if dt.kind == "f":
+        v = (yy * 131 + xx * 7 + b * 1009 + 1 + cfg.get("salt", 0) * 7919)
+        if dt.kind == "b":
+            v = ((v * 2654435761 >> 11) & 1).astype(bool)
+        elif dt.kind == "f":
             v = v.astype(dt) * dt.type(0.5)
         elif dt.kind == "u":
             v = (v % (np.iinfo(dt).max + 1)).astype(dt)
@@ -120,6 +122,63 @@ def scheduler(cfg):
         raise ValueError(kind)
 
 
+def writer_kwargs(cfg):
+    kw = {}
+    for k in ("compression", "predictor", "blocksize", "bigtiff", "stats", "spill_sz", "writes_per_chunk", "level",
+              "compressionargs"):
+        if k in cfg and cfg[k] is not None:
+            kw[k] = cfg[k]
+    # codec tuning options in GDAL spelling (zlevel=, zstd_level=, max_z_error=, ...) go through **kw of the writer
+    kw.update(cfg.get("kw") or {})
+    if "compressionargs" in kw and not cfg.get("share_compressionargs"):
+        kw["compressionargs"] = dict(kw["compressionargs"])       # a private copy per call
+    if "blocksize" in kw:
+        kw["blocksize"] = [tuple(b) if isinstance(b, (list, tuple)) else b for b in kw["blocksize"]] \
+            if isinstance(kw["blocksize"], list) else kw["blocksize"]
+    return kw
+
+
+def run_pair(cfg, workdir):
+    """Two saves computed together in ONE dask.compute: cfg = {"a": cfg, "b": cfg or None (the very same array),
+    "same_name": both files are called out.tif (in different directories), "parts_base": both use one scratch directory
+    for their parts, "scheduler": ...}.  Returns [(path, pixels, cfg), (path, pixels, cfg)]."""
+    import dask
+    import odc.geo.cog._tifffile as T
+
+    a = dict(cfg["a"], name="a")
+    xa, pa, _ = make_xx(a)
+    if cfg.get("b") is None:
+        b, xb, pb = a, xa, pa
+    else:
+        b = dict(cfg["b"], name="b")
+        xb, pb, _ = make_xx(b)
+    da_, db_ = Path(workdir) / "A", Path(workdir) / "B"
+    for d in (da_, db_):
+        d.mkdir(parents=True, exist_ok=True)
+    na, nb = ("out.tif", "out.tif") if cfg.get("same_name") else ("a.tif", "b.tif")
+    extra = {}
+    if cfg.get("parts_base"):
+        pb_dir = Path(workdir) / "parts"
+        pb_dir.mkdir(exist_ok=True)
+        extra["parts_base"] = str(pb_dir)
+    min_write = cfg.get("min_write_sz")
+    orig_sink_min = None
+    if min_write is not None:
+        from odc.geo.cog._mpu_fs import MPUFileSink
+        orig_sink_min = MPUFileSink.min_write_sz
+        MPUFileSink.min_write_sz = property(lambda self: min_write)
+    try:
+        r1 = T.save_cog_with_dask(xa, str(da_ / na), **writer_kwargs(a), **extra)
+        r2 = T.save_cog_with_dask(xb, str(db_ / nb), **writer_kwargs(b), **extra)
+        with scheduler(cfg):
+            dask.compute(r1, r2)
+    finally:
+        if orig_sink_min is not None:
+            from odc.geo.cog._mpu_fs import MPUFileSink
+            MPUFileSink.min_write_sz = orig_sink_min
+    return [(str(da_ / na), pa, a), (str(db_ / nb), pb, b)]
+
+
 def run_writer(cfg, workdir):
     """Returns dict(path, pix, gbox, meta, observed, hdr_len, tile_bytes, hdr_calls)."""
     import odc.geo.cog._tifffile as T
@@ -154,18 +213,7 @@ def run_writer(cfg, workdir):
             rec["meta"] = meta
         return hdr
 
-    kw = {}
-    for k in ("compression", "predictor", "blocksize", "bigtiff", "stats", "spill_sz", "writes_per_chunk", "level",
-              "compressionargs"):
-        if k in cfg and cfg[k] is not None:
-            kw[k] = cfg[k]
-    # codec tuning options in GDAL spelling (zlevel=, zstd_level=, max_z_error=, ...) go through **kw of the writer
-    kw.update(cfg.get("kw") or {})
-    if "compressionargs" in kw:
-        kw["compressionargs"] = dict(kw["compressionargs"])       # the writer mutates it
-    if "blocksize" in kw:
-        kw["blocksize"] = [tuple(b) if isinstance(b, (list, tuple)) else b for b in kw["blocksize"]] \
-            if isinstance(kw["blocksize"], list) else kw["blocksize"]
+    kw = writer_kwargs(cfg)
 
     T._compress_cog_tile = rec_compress
     T._patch_hdr = rec_patch
